@@ -152,7 +152,7 @@ Definition item_event_name (w : wstate) (t : string) (route : nat) (item : nat) 
     | None => Val base        (* the task already completed: a late item report is passed on as is *)
     | Some s =>
         match s_items s with
-        | None => Exc (mkexn "KeyError" "'items'")
+        | None => Val base    (* staged again for a retry, not offered yet: a late report of the previous attempt *)
         | Some items =>
             if negb (Nat.ltb item (length items))
             then Exc (mkexn "IndexError" "list assignment index out of range")
